@@ -35,6 +35,10 @@ PAIRS = {
     "inflate.c:inflateSetDictionary": Z + "inflate::set_dictionary",
     "inflate.c:inflatePrime": Z + "inflate::prime",
     "inflate.c:inflateReset2": Z + "inflate::reset_with_config",
+    "infback.c:inflateBack": Z + "inflate::infback::back",
+    "inflate.c:inflateGetHeader": Z + "inflate::get_header",
+    "deflate.c:deflateSetHeader": Z + "deflate::set_header",
+    "deflate.c:deflate": Z + "deflate::deflate",
 }
 
 # zlib-ng field -> zlib-rs field
@@ -51,11 +55,14 @@ BY_CALL = {
     "bits": r"BitReader::(init_bits|prime|drop_bits|return_unused_bytes|new|start_sync_search)$",
     "hold": r"BitReader::(init_bits|prime|drop_bits|return_unused_bytes|new|start_sync_search)$",
     "havedict": r"Flags::update$", "last": r"Flags::update$", "sane": r"Flags::update$",
+    "whave": r"Window::(clear|set_have)$",
 }
 # (pair, zlib-ng field) with no counterpart, and why
 DROPPED = {
     ("deflate.c:fill_window", "high_water"): "zlib-rs zero-initialises the whole window at allocation; there is no high-water mark",
     ("deflate_stored.c:deflate_stored", "high_water"): "same: no high-water mark in zlib-rs",
+    ("infback.c:inflateBack", "distbits"): "the table objects of zlib-rs carry their root bits (Table.bits)",
+    ("infback.c:inflateBack", "lenbits"): "same",
 }
 
 
@@ -79,6 +86,39 @@ def _companions_write(P, W, fn, field):
     return True
 
 
+def attributed(P, fn):
+    """(field names written, callees) by fn itself and by the helpers it calls - local functions that are not themselves the
+    counterpart of a zlib-ng function (extracting a helper must not change the verdict; calling another paired function
+    such as deflate() from deflateParams does not lend its stores)"""
+    paired = set(PAIRS.values())
+    seen, work = set(), [fn.path]
+    written, callees = set(), set()
+    while work:
+        p = work.pop()
+        if p in seen:
+            continue
+        seen.add(p)
+        f = P.fns.get(p)
+        if f is None:
+            continue
+        written |= {fp[-1] for bi, fp, root, rv, st in f.field_writes()}
+        for c in f.live_calls():
+            if not c.callee:
+                continue
+            callees.add(c.callee)
+            if c.callee in P.fns and c.callee not in paired and c.callee.startswith(Z) and len(seen) < 40:
+                work.append(c.callee)
+    return written, callees
+
+
+# setter-like API functions whose zlib-ng body is the whole contract: they store nothing else
+EXACT = {
+    "deflate.c:deflateTune": set(),
+    "deflate.c:deflateSetHeader": set(),
+    "inflate.c:inflateGetHeader": {"done"},     # zlib-ng: head->done = 0 through the header pointer
+}
+
+
 def check(ck, P, rule, only=None, W=None):
     if W is None:
         from . import flow
@@ -97,8 +137,7 @@ def check(ck, P, rule, only=None, W=None):
         if not ck.anchor("fn " + path, fn):
             continue
         ck.use_fn(fn)
-        written = {fp[-1] for bi, fp, root, rv, st in fn.field_writes()}
-        callees = {c.callee for c in fn.live_calls() if c.callee}
+        written, callees = attributed(P, fn)
         cname = key.split(":")[1]
         for cf in cfields:
             if (key, cf) in DROPPED:
@@ -116,4 +155,11 @@ def check(ck, P, rule, only=None, W=None):
             ck.decide(ok, rule, "%s:%s" % (cname, cf), how,
                       "zlib-ng's %s assigns `%s`; %s no longer stores `%s` (directly%s): the port has lost a state update of its reference"
                       % (cname, cf, path.replace(Z, ""), rf, " or through " + BY_CALL[cf] if cf in BY_CALL else ""), where(fn))
+        if key in EXACT:
+            allowed = {RENAMED.get(cf, cf) for cf in cfields} | set(cfields) | EXACT[key]
+            extra = sorted(w for w in written if w not in allowed and not w.isdigit())
+            n += 1
+            ck.decide(not extra, rule, "%s:nothing-else" % cname, "stores only what zlib-ng's %s stores" % cname,
+                      "%s (with its helpers) also stores %s, which zlib-ng's %s does not touch: the call changes more of the stream's state "
+                      "than its reference does" % (path.replace(Z, ""), extra, cname), where(fn))
     return n
